@@ -53,13 +53,13 @@ def ty_of(e):
 
 
 def linear_ty(t):
-    return t in ("q", "t", "s", "tqi")
+    return t in ("q", "t", "s", "w", "tqi")
 
 
 class Spec:
     def __init__(self, fn):
         self.fn = fn
-        self.borrowed = {n: t for n, t, m in fn["params"] if m == "bor" and t in ("q", "t", "s", "arr")}
+        self.borrowed = {n: t for n, t, m in fn["params"] if m == "bor" and t in ("q", "t", "s", "w", "arr")}
         self.violations = []
         self.complete_paths = 0
 
@@ -134,18 +134,16 @@ class Spec:
         raise ValueError(e)
 
     def assign(self, st, name, ty):
+        """assignment of a variable, a field or an intermediate field (`pw.inner`): everything the
+        place held is overwritten"""
         st = set(st)
-        if "." in name or "[" in name:
-            if (name, "lin") in st:
-                raise Violation("overwrite", name)
-        else:
-            if name in self.borrowed:
-                raise Violation("assign-borrowed", name)
-            for (l, k) in list(st):
-                if l == name or l.startswith(name + ".") or l.startswith(name + "["):
-                    if k == "lin":
-                        raise Violation("overwrite", l)
-                    st.discard((l, k))
+        if name in self.borrowed:
+            raise Violation("assign-borrowed", name)
+        for (l, k) in list(st):
+            if l == name or l.startswith(name + ".") or l.startswith(name + "["):
+                if k == "lin":
+                    raise Violation("overwrite", l)
+                st.discard((l, k))
         for l, k in leaves_of(name, ty):
             if k != "copy":
                 st.add((l, k))
